@@ -13,9 +13,11 @@ CMP_CALLS = ("eq", "ne", "lt", "le", "gt", "ge", "cmp", "partial_cmp")
 CMP_BINOPS = ("Eq", "Ne", "Lt", "Le", "Gt", "Ge")
 
 
-def comparison_sites(g):
+def comparison_sites(g, equality_only=False):
     """(body, block, [lhs nodes], [rhs nodes], result node, span)."""
     f = g.facts
+    binops = EQUALITY_BINOPS if equality_only else CMP_BINOPS
+    calls = EQUALITY_CALLS if equality_only else CMP_CALLS
     out = []
     for bid in sorted(g.scope):
         b = f.bodies[bid]
@@ -25,7 +27,7 @@ def comparison_sites(g):
                 continue
             for st in blk["stmts"]:
                 rv = st["rv"]
-                if rv.get("k") == "binop" and rv.get("op") in CMP_BINOPS:
+                if rv.get("k") == "binop" and rv.get("op") in binops:
                     ops = rv["ops"]
                     l = [(bid, ops[0]["pl"]["l"])] if ops[0]["k"] in ("copy", "move") else []
                     r = [(bid, ops[1]["pl"]["l"])] if ops[1]["k"] in ("copy", "move") else []
@@ -33,7 +35,7 @@ def comparison_sites(g):
             t = blk["term"]
             if t["k"] == "call" and len(t["args"]) == 2:
                 c = t.get("callee") or ""
-                if c.rsplit("::", 1)[-1] in CMP_CALLS and ("cmp::" in c or "PartialEq" in c or "PartialOrd" in c):
+                if c.rsplit("::", 1)[-1] in calls and ("cmp::" in c or "PartialEq" in c or "PartialOrd" in c):
                     a0, a1 = t["args"]
                     l = [(bid, a0["pl"]["l"])] if a0["k"] in ("copy", "move") else []
                     r = [(bid, a1["pl"]["l"])] if a1["k"] in ("copy", "move") else []
@@ -49,15 +51,20 @@ def reach_nodes(ctx, g, starts, cut):
     return {st[0] for st in par}
 
 
-def check(ctx, anchor, a_starts, b_starts, cut_sponge=True):
-    """returns (ok, detail, where)."""
+EQUALITY_CALLS = ("eq", "ne", "cmp", "partial_cmp")
+EQUALITY_BINOPS = ("Eq", "Ne")
+
+
+def check(ctx, anchor, a_starts, b_starts, cut_sponge=True, equality_only=False):
+    """returns (ok, detail, where). With equality_only, only comparisons that can establish equality count
+    (==, !=, three-way cmp); a lone `<` cannot tell an exact match from "the next larger entry"."""
     g = ctx.graph(anchor)
     cut = ctx.sponge_cut(g) if cut_sponge else None
     ra = reach_nodes(ctx, g, a_starts, cut)
     rb = reach_nodes(ctx, g, b_starts, cut)
     if len(ra) <= len(a_starts) or len(rb) <= len(b_starts):
         return False, "one of the two components is never read", anchor.body.span
-    sites = comparison_sites(g)
+    sites = comparison_sites(g, equality_only)
     best = None
     for (bid, blk, l, r, res, span) in sites:
         la, lb = any(n in ra for n in l), any(n in rb for n in l)
